@@ -25,7 +25,7 @@ HEADER = ('From Coq Require Import ZArith QArith List Bool. Import ListNotations
 FUEL = 500
 SIG_CROSS = 'C10:cross-clock-order-follows-physical-time'
 SIG_DUP = 'C10:nrt-two-pending-wakeups-after-reschedule'
-NREQ = 10
+NREQ = 21
 
 
 # ------------------------------------------------------------------ printers
@@ -64,6 +64,8 @@ def xact(a, p=None):
         return '(XResume %d)' % a[1]
     if k == 'R':
         return 'XReturn'
+    if k == 'raise':       # an exception raised by the body: for the model an action that fails (a wait on a condition that does not exist)
+        return '(XWait 4999)'
     raise ValueError(a)
 
 
@@ -204,8 +206,10 @@ def gen_xprog(rng, profile):
                 if ntempo and (free or (h != 'S' and alone)):
                     i = rng.randrange(ntempo) if free else h[1]
                     body.append(['T', i, rng.choice(TEMPI)])
-            else:
+            elif rng.random() < 0.5:
                 body.append(['R'])
+            else:
+                body.append(['raise', rng.choice('VSKR')])
         if j + 1 < nb and nplay == 0 and rng.random() < (0.9 if j == 0 else 0.5):
             a = play_act(j, j + 1)
             if a is not None:
@@ -217,7 +221,9 @@ def gen_xprog(rng, profile):
         bodies[0].insert(0, ['seed', rng.choice([5, 11, 42] + SEED_POOL)])
     if free and rng.random() < 0.1 and nb > 1:
         bodies[rng.randrange(nb)].append(rng.choice([['W', nconds + 1], ['fget', nflows], ['P', nb + 2, 'S'], ['fset', nflows + 3, 1]]))
-    return {'tempos': tempos, 'bodies': bodies, 'nconds': nconds, 'nflows': nflows, 'shared': shared,
+    # clocks all of whose routines form ONE group: the order of their wake-ups is fixed in both modes (ties included)
+    order_clocks = [cl for cl in clocks if len({grp[t] for t in range(nb) if home[t] == cl}) <= 1] if not free else []
+    return {'tempos': tempos, 'bodies': bodies, 'nconds': nconds, 'nflows': nflows, 'shared': shared, 'order_clocks': order_clocks,
             'mseed': rng.randint(0, 1000), 'tail': rng.choice(['0', '0', '1/4'])}
 
 
@@ -239,6 +245,11 @@ SEEDS_PROG = {'tempos': [], 'bodies': [[['seed', ['s', 'seed']], ['D', 0], ['D',
                                        [['seed', -7], ['D', 0], ['D', 5]],
                                        [['seed', 2 ** 70 + 5], ['D', 0], ['D', 9]]],
               'nconds': 0, 'nflows': 0, 'mseed': 3, 'tail': '0'}
+# twelve routines forked at the same logical instant share their parent's generator, draw, send and yield 0: the order is the
+# scheduling order in both modes
+STORM_PROG = {'tempos': [], 'bodies': [[['seed', 0]] + [['F', 1]] * 12 + [['Y', '0'], ['D', 10], ['D', 0]],
+                                       [['D', 0], ['S', '0', [['m', 7]]], ['Y', '0'], ['D', 13], ['D', 1], ['Y', '0'], ['S', None, [['m', 8]]]]],
+              'nconds': 0, 'nflows': 0, 'mseed': 0, 'tail': '0', 'shared': [], 'order_clocks': ['S']}
 FIXED = [
     DUP_PROG,
     # the example of the documentation guide, inheritance and re-seeding, pause/resume, flow variable across clocks
@@ -249,6 +260,7 @@ FIXED = [
     CROSS_PROG,
     SHARED_PROG,
     SEEDS_PROG,
+    STORM_PROG,
 ]
 
 
@@ -336,8 +348,11 @@ def tags_close(a, b):
 
 def diff_runs(p, a, b, single_clock):
     """first difference between two canonical observations, or None"""
-    pa, ba, oa = canon(p, a)
-    pb, bb, ob = canon(p, b)
+    try:
+        pa, ba, oa = canon(p, a)
+        pb, bb, ob = canon(p, b)
+    except (IndexError, KeyError, TypeError, ValueError) as e:
+        return 'the recorded observation is malformed (a stamped bundle does not have the shape of the bundle that was sent): %r' % (e,)
     if set(pa) != set(pb):
         return 'different routines were created: %s vs %s' % (sorted(pa), sorted(pb))
     for pp in sorted(pa):
@@ -356,6 +371,11 @@ def diff_runs(p, a, b, single_clock):
         return 'the time-sorted bundle sequences differ: %s vs %s' % ([(str(t), s) for t, s in ba], [(str(t), s) for t, s in bb])
     if single_clock and oa != ob:
         return 'the global order of resumptions differs: %s vs %s' % (oa, ob)
+    for cl in p.get('order_clocks', []):
+        key = json.dumps(cl)
+        xa, xb = [x for x in oa if x[1][2] == key], [x for x in ob if x[1][2] == key]
+        if xa != xb:
+            return 'the order of the wake-ups of clock %s (one group, ties included) differs: %s vs %s' % (key, xa, xb)
     return None
 
 
@@ -435,8 +455,84 @@ def gen_quant_prog(rng):
     return {'tempos': tempos, 'bodies': bodies, 'nconds': 0, 'nflows': 0, 'mseed': rng.randint(0, 99), 'tail': '0', 'shared': []}
 
 
+# stop / reset / replay / play-twice, exceptions of several classes, routines waiting on conditions or paused while they are
+# hit, logical-time reads from late routines: one clock, so the order is fixed.  Not in the Coq model.
+LIFE_PROG = {'tempos': [], 'bodies': [
+    [['seed', 0], ['P', 1, 'S'], ['P', 2, 'S'], ['P', 3, 'S'], ['cbs'], ['Y', '1/64'], ['stop', 1], ['reset', 2], ['Y', '1/64'], ['replay', 2], ['play2', 3],
+     ['pause', 3], ['Y', '1/32'], ['replay', 1], ['resume', 3], ['test', 0, True], ['sig', 0], ['Y', '1/16'], ['D', 0], ['cbs']],
+    [['D', 0], ['Y', '1/32'], ['D', 1], ['S', '0', [['m', 1]]], ['Y', '1/32'], ['D', 2]],
+    [['D', 10], ['cbs'], ['Y', '1/32'], ['D', 3], ['raise', 'S'], ['D', 4]],
+    [['seed', ['s', '']], ['D', 0], ['W', 0], ['D', 1], ['cbs'], ['Y', '0'], ['raise', 'K']]],
+    'nconds': 1, 'nflows': 0, 'mseed': 5, 'tail': '0', 'shared': [], 'order_clocks': ['S']}
+
+
+def gen_life_prog(rng):
+    tempo = rng.random() < 0.4
+    cl = ['T', 0] if tempo else 'S'
+    nb = rng.randint(3, 5)
+    ds = ['0', '1/4', '1/2', '1', '2'] if tempo else ['0', '1/128', '1/64', '1/32']
+
+    def common(body, j):
+        r = rng.random()
+        if r < 0.3:
+            body.append(['Y', rng.choice(ds)])
+        elif r < 0.5:
+            body.append(['D', rng.randrange(NREQ)])
+        elif r < 0.6:
+            body.append(['S', rng.choice(['0', None, '1/8']), [['m', rng.randint(0, 9)]]])
+        elif r < 0.7:
+            body.append(['cbs'])
+        elif r < 0.78:
+            body.append(['W', 0])
+        elif r < 0.86:
+            body += [['test', 0, True], ['sig', 0]] if rng.random() < 0.7 else [['test', 0, False]]
+        elif r < 0.9:
+            body.append(['seed', rng.choice(SEED_POOL)])
+        else:
+            t = rng.choice([x for x in range(1, nb) if x != j] or [1])
+            body.append([rng.choice(['pause', 'resume', 'stop', 'play2']), t])
+    bodies = []
+    root = [['seed', rng.choice(SEED_POOL)]] + [['P' if tempo else 'F', j] + ([cl] if tempo else []) for j in range(1, nb)]
+    if not tempo:
+        root = [root[0]] + [['F', j] for j in range(1, nb)]
+    for _ in range(rng.randint(5, 12)):
+        r = rng.random()
+        if r < 0.3:
+            root.append([rng.choice(['stop', 'reset', 'replay', 'replay', 'play2', 'pause', 'resume']), rng.randint(1, nb - 1)])
+        else:
+            common(root, 0)
+    bodies.append(root)
+    for j in range(1, nb):
+        body = []
+        for _ in range(rng.randint(3, 8)):
+            common(body, j)
+        if rng.random() < 0.35:
+            body.insert(rng.randint(0, len(body)), ['raise', rng.choice('VSKR')])
+        bodies.append(body)
+    if tempo:                      # the root lives on SystemClock: move the whole family onto the TempoClock through one head
+        bodies = [[['P', 1, cl]]] + [[a if a[0] not in ('F', 'P', 'pause', 'resume', 'stop', 'reset', 'replay', 'play2') else
+                                      ([a[0], a[1] + 1] + ([cl] if a[0] == 'P' else [])) for a in b] for b in bodies]
+    return {'tempos': ['32'] if tempo else [], 'bodies': bodies, 'nconds': 1, 'nflows': 0, 'mseed': rng.randint(0, 99), 'tail': '0',
+            'shared': [], 'order_clocks': [cl]}
+
+
+def check_post(c, p, o, mode):
+    post = o.get('post') or {}
+    want = {'current_is_main': True, 'no_parent_left': True, 'none_running': True}
+    if mode == 'rt':
+        want.update({'in_awake_call': False, 'main_time_refreshes': True})
+    bad = {k: post.get(k) for k, v in want.items() if post.get(k) != v}
+    if bad:
+        c.failures.append(Failure('correspondence', 'after the %s run the next operation of the main thread finds leaked state: %s. Program: %s'
+                                  % (mode.upper(), bad, json.dumps(p)), theorem='rt_nrt_agree', found_input=True,
+                                  replay={'program': p, 'post': post}))
+        return False
+    return True
+
+
 def quant_part(ctx, c):
-    cases = [QUANT_PROG] + [gen_quant_prog(ctx.rng) for _ in range(ctx.n(60, 400))]
+    cases = [QUANT_PROG, LIFE_PROG] + [gen_quant_prog(ctx.rng) for _ in range(ctx.n(45, 400))] + \
+            [gen_life_prog(ctx.rng) for _ in range(ctx.n(45, 400))]
     A, B = par([lambda: impl_tagged(ctx, 'qA', {'cases': cases}, 'nrt', hashseed='77'),
                 lambda: impl_tagged(ctx, 'qB', {'cases': cases}, 'nrt', hashseed='88')])
     R = run_rt(ctx, cases, k=5)
@@ -455,10 +551,23 @@ def quant_part(ctx, c):
         for v in a['vals']:
             if v[0] == 'q':
                 c.count('quant:' + v[3])
+        for b_ in p['bodies']:
+            for act in b_:
+                if act[0] in ('stop', 'reset', 'replay', 'play2', 'raise', 'cbs'):
+                    c.count('life:' + act[0])
+        check_post(c, p, a, 'nrt')
+        for text in a['stream_errors']:
+            c.failures.append(Failure('correspondence', 'random stream: %s. Program: %s' % (text, json.dumps(p)),
+                                      theorem='own_seed_stream_independent', found_input=True, replay={'program': p, 'vals': a['vals']}))
         if not r.get('completed'):
             c.count('quant:rt not-completed-in-time (machine load); not compared')
             continue
         c.nontriv(('quant', json.dumps(p, sort_keys=True)))
+        check_post(c, p, r, 'rt')
+        if any(v[0] == 'q' and v[3] == 'not-early' and v[4] is not True for v in r['vals']):
+            c.failures.append(Failure('correspondence', 'a task ran before its logical time had come (RT). Program: %s' % json.dumps(p),
+                                      found_input=True, replay={'program': p, 'rt_vals': r['vals']}))
+        r = dict(r, vals=[v for v in r['vals'] if not (v[0] == 'q' and v[3] == 'not-early')])
         d = diff_runs(p, a, r, False)
         if d is None and a['errors'] != r['errors']:
             d = 'errors differ: %s vs %s' % (a['errors'], r['errors'])
@@ -539,8 +648,8 @@ def correspond(ctx):
     corpus = os.path.join(fw.VERIF, 'corpus', 'C10_programs.json')
     if os.path.exists(corpus):
         nrt_cases += json.load(open(corpus))
-    nrt_cases += [gen_xprog(rng, 'nrt') for _ in range(ctx.n(700, 3000))]
-    rt_cases = [SHARED_PROG, SEEDS_PROG] + [gen_xprog(rng, 'single' if i % 2 == 0 else 'groups') for i in range(ctx.n(180, 900))]
+    nrt_cases += [gen_xprog(rng, 'nrt') for _ in range(ctx.n(600, 3000))]
+    rt_cases = [SHARED_PROG, SEEDS_PROG, STORM_PROG] + [gen_xprog(rng, 'single' if i % 2 == 0 else 'groups') for i in range(ctx.n(150, 900))]
     cases = nrt_cases + rt_cases
     first_rt = len(nrt_cases)
 
@@ -551,7 +660,7 @@ def correspond(ctx):
     items, idx = [], []
     for i, (p, a, b) in enumerate(zip(cases, A, B)):
         if 'fatal' in a or 'fatal' in b or not a.get('raw_ok'):
-            c.failures.append(Failure('correspondence', 'NRT case %d could not be run: %s' % (i, (a.get('fatal') or b.get('fatal') or 'raw score malformed')[:600]),
+            c.failures.append(Failure('correspondence', 'NRT case %d could not be run: %s' % (i, (a.get('fatal') or b.get('fatal') or 'raw score malformed')[:600]), found_input=True,
                                       replay={'program': p}))
             continue
         for key in ('raw_sha1', 'list_repr_sha1', 'events', 'vals', 'elapsed'):
@@ -564,6 +673,10 @@ def correspond(ctx):
         for text in a['stream_errors']:
             c.failures.append(Failure('correspondence', 'random stream: %s. Program: %s' % (text, json.dumps(p)),
                                       theorem='own_seed_stream_independent', found_input=True, replay={'program': p, 'vals': a['vals']}))
+        check_post(c, p, a, 'nrt')
+        if a.get('twosite'):
+            c.failures.append(Failure('correspondence', 'the list view of the score and its binary form disagree: %s. Program: %s' % (a['twosite'][0], json.dumps(p)),
+                                      found_input=True, replay={'program': p, 'disagreements': a['twosite'], 'score': a['score']}))
         nres = sum(1 for e in a['events'] if e[0] == 'resume')
         c.count('nrt:resumptions:%s' % ('1-3' if nres <= 3 else '4-9' if nres <= 9 else '10+'))
         for e in a['events']:
@@ -636,6 +749,7 @@ def correspond(ctx):
             c.count('rt:programs sending a shared nested bundle again')
         c.count('rt:%s:wakeups:%d' % ('single-clock' if is_single(p) else 'several-clocks', min(12, len(r['schedule']))))
         c.nontriv(('rt', json.dumps(p, sort_keys=True)))
+        check_post(c, p, r, 'rt')
         d = diff_runs(p, a, r, is_single(p))
         if d and (first_rt + j) in as_found:
             c.count('rt:differs-from-NRT because of the two pending wake-ups (reported once)')
